@@ -154,6 +154,14 @@ class ComponentBump:
         """
         if self.to_rbuild is None:
             return {}
+        # builds contained in any of the 'from' builds were included before
+        known_iids = set()
+        known_stack = list(self.from_rbuilds.values())
+        while known_stack:
+            rbuild = known_stack.pop()
+            if rbuild.iid not in known_iids:
+                known_iids.add(rbuild.iid)
+                known_stack.extend(rbuild.parent_rbuilds.values())
         # DFS rbuilds in the component
         dfs_stack = [[self.to_rbuild]]
         dfs_sp = [0]
@@ -177,7 +185,7 @@ class ComponentBump:
 
             cur_rbuild = dfs_stack[-1][cur_sp]
 
-            if cur_rbuild.iid in self.from_rbuilds:
+            if cur_rbuild.iid in known_iids:
                 # do not go deeper
                 dfs_sp[-1] = cur_sp - 1
                 continue
